@@ -5,6 +5,7 @@ import (
 	"fmt"
 	"os"
 	"strings"
+	"sync"
 
 	"github.com/gogpu/naga/ir"
 	"github.com/gogpu/naga/msl"
@@ -401,6 +402,9 @@ func c15RunReuse(r *explore.Run) {
 	r.ParallelFor(nOpts*n*n, func(k int) {
 		c15ReusePair(r, tn, cover, k/(n*n), k/n%n, k%n)
 	})
+	if r.Thorough() {
+		c15RunReuseTriples(r, cover)
+	}
 	c15RunTextHistory(r, cover)
 }
 
@@ -465,52 +469,59 @@ func c15RunTextHistory(r *explore.Run, cover []c15rEnt) {
 	}
 	r.Extra("text_history_cover_programs", len(sub))
 	n := len(sub)
+	var wg sync.WaitGroup
 	for _, b := range bes {
-		// outcome of B after every A; B is judged only where history changes its outcome: clean after
-		// some predecessor, not clean after another (a B that is never clean is a matter of the
-		// per-program families, not of history)
-		cls := make([]string, n*n)
-		errs := make([]string, n*n)
-		texts := make([]string, n*n)
-		for ai, a := range sub {
-			for bi, e := range sub {
-				_, _, _, _ = b.run(a.mod, a.c, c15ExecOpts(a.c))
-				got, text, err, pn := b.run(e.mod, e.c, c15ExecOpts(e.c))
-				r.Count("evaluations", 1)
-				r.Count("text_history_pairs", 1)
-				cl := c15OutcomeClass(err, pn)
-				if cl == "" {
-					if d := compareBufs(e.c, e.ref, got); d != "" {
-						cl, err = "wrong-result", errors.New(d)
+		b := b
+		wg.Add(1)
+		go func() {
+			defer wg.Done()
+			// outcome of B after every A; B is judged only where history changes its outcome: clean after
+			// some predecessor, not clean after another (a B that is never clean is a matter of the
+			// per-program families, not of history)
+			cls := make([]string, n*n)
+			errs := make([]string, n*n)
+			texts := make([]string, n*n)
+			for ai, a := range sub {
+				for bi, e := range sub {
+					_, _, _, _ = b.run(a.mod, a.c, c15ExecOpts(a.c))
+					got, text, err, pn := b.run(e.mod, e.c, c15ExecOpts(e.c))
+					r.Count("evaluations", 1)
+					r.Count("text_history_pairs", 1)
+					cl := c15OutcomeClass(err, pn)
+					if cl == "" {
+						if d := compareBufs(e.c, e.ref, got); d != "" {
+							cl, err = "wrong-result", errors.New(d)
+						}
+					}
+					cls[ai*n+bi] = cl
+					if cl != "" {
+						errs[ai*n+bi], texts[ai*n+bi] = fmt.Sprint(err), text
 					}
 				}
-				cls[ai*n+bi] = cl
-				if cl != "" {
-					errs[ai*n+bi], texts[ai*n+bi] = fmt.Sprint(err), text
+			}
+			for bi, e := range sub {
+				clean := false
+				for ai := range sub {
+					if cls[ai*n+bi] == "" {
+						clean = true
+					}
 				}
-			}
-		}
-		for bi, e := range sub {
-			clean := false
-			for ai := range sub {
-				if cls[ai*n+bi] == "" {
-					clean = true
-				}
-			}
-			if !clean {
-				continue
-			}
-			for ai, a := range sub {
-				cl := cls[ai*n+bi]
-				if cl == "" || cl == "skip" {
+				if !clean {
 					continue
 				}
-				r.Violate(explore.Violation{Key: "C15|" + b.name + "|history|" + c15Class(e.c.Sig) + "|after " + a.c.Family + "|" + cl,
-					Detail: fmt.Sprintf("%s text for %s compiled right after %s is not safe on hostile data, after other programs it is: %s", b.name, e.c.Sig, a.c.Sig, errs[ai*n+bi]),
-					Replay: map[string]any{"first": a.c.Sig, "second": e.c.Sig, "first_src": wgen.Print(a.c.Mod), "src": wgen.Print(e.c.Mod), "backend": b.name, "emitted": trunc(texts[ai*n+bi], 6000)}})
+				for ai, a := range sub {
+					cl := cls[ai*n+bi]
+					if cl == "" || cl == "skip" {
+						continue
+					}
+					r.Violate(explore.Violation{Key: "C15|" + b.name + "|history|" + c15Class(e.c.Sig) + "|after " + a.c.Family + "|" + cl,
+						Detail: fmt.Sprintf("%s text for %s compiled right after %s is not safe on hostile data, after other programs it is: %s", b.name, e.c.Sig, a.c.Sig, errs[ai*n+bi]),
+						Replay: map[string]any{"first": a.c.Sig, "second": e.c.Sig, "first_src": wgen.Print(a.c.Mod), "src": wgen.Print(e.c.Mod), "backend": b.name, "emitted": trunc(texts[ai*n+bi], 6000)}})
+				}
 			}
-		}
+		}()
 	}
+	wg.Wait()
 }
 
 func c15OutcomeClass(err error, pn *nagax.Panic) string {
@@ -531,3 +542,150 @@ func c15OutcomeClass(err error, pn *nagax.Panic) string {
 	return cl
 }
 
+// ---------------------------------------------------------------- MSL: Index and Buffer policies that differ
+
+// c15SpaceOf: the address space a F15idx / F15acc case indexes ("" = not classified).
+func c15SpaceOf(sig string) string {
+	p := strings.Split(sig, "/")
+	if len(p) < 3 {
+		return ""
+	}
+	if p[0] == "F15idx" {
+		return p[2]
+	}
+	if p[0] == "F15acc" {
+		switch {
+		case strings.HasPrefix(p[2], "storage-"), strings.HasPrefix(p[2], "atomic-"):
+			return "storage"
+		case strings.HasPrefix(p[2], "uniform-"):
+			return "uniform"
+		case strings.HasPrefix(p[2], "private-"):
+			return "private"
+		case strings.HasPrefix(p[2], "workgroup-"):
+			return "workgroup"
+		case strings.HasPrefix(p[2], "function-"), p[2] == "pointer-argument":
+			return "function"
+		case strings.HasPrefix(p[2], "value-"):
+			return "value"
+		}
+	}
+	return ""
+}
+
+// c15RunMixedPolicies: the two MSL option sets in which the Index policy (function/private/workgroup
+// objects and values) and the Buffer policy (storage/uniform buffers) DIFFER, over every case of
+// F15acc and F15idx; the expected behaviour of a case is that of the policy governing its space.
+// With both policies equal (the other option sets of this check) a back end that consulted the
+// wrong one of the two would go unnoticed.
+func c15RunMixedPolicies(r *explore.Run) {
+	type mixed struct {
+		label       string
+		index, buff int
+		prepare     func(m *ir.Module, c *wgen.Case) (func(xrt.Buffers, xrt.Opts) error, string, error, *nagax.Panic)
+	}
+	var ms []mixed
+	for _, cfg := range nagax.MSLConfigs(1) {
+		switch cfg.Label {
+		case "idx=restrict":
+			ms = append(ms, mixed{"index=restrict,buffer=read-zero-skip-write", wref.OOBClamp, wref.OOBZeroSkip, c15xMSLPrepare(cfg.Opts)})
+		case "buf=restrict":
+			ms = append(ms, mixed{"index=read-zero-skip-write,buffer=restrict", wref.OOBZeroSkip, wref.OOBClamp, c15xMSLPrepare(cfg.Opts)})
+		}
+	}
+	if len(ms) != 2 {
+		panic("msl mixed-policy configs not found")
+	}
+	for _, f := range []*wgen.Family{wgen.F15Access(), wgen.F15Idx()} {
+		f := f
+		r.Extra("mixed_policy_cases_"+f.Name, f.Count)
+		r.ParallelFor(f.Count, func(i int) {
+			c := f.At(i)
+			sp := c15SpaceOf(c.Sig)
+			if sp == "" {
+				r.Skip("mixed policies: space of the access not classified")
+				return
+			}
+			src := wgen.Print(c.Mod)
+			m, _, err, pn := nagax.Front(src)
+			if err != nil || pn != nil {
+				r.Skip("front end rejected/panicked (C08/C10)")
+				return
+			}
+			for _, mx := range ms {
+				oob := mx.index
+				if sp == "storage" || sp == "uniform" {
+					oob = mx.buff
+				}
+				ref, rerr := runRef(c, wref.Config{OOB: oob})
+				if rerr != nil || ref.undef != "" {
+					r.Skip("reference: " + fmt.Sprint(rerr, ref))
+					continue
+				}
+				r.Count("evaluations", 1)
+				pp := &prog{Sig: c.Sig, Src: src, Case: c}
+				run, text, cerr, pn := mx.prepare(m, c)
+				if pn != nil || cerr != nil {
+					c15Judge(r, pp, "msl", mx.label, ref, nil, text, cerr, pn)
+					continue
+				}
+				bufs := c.Bufs.Clone()
+				xerr := run(bufs, xrt.Opts{NumWorkgroups: c.Groups, StepLimit: 200_000, PoisonLocals: true})
+				c15Judge(r, pp, "msl", mx.label, ref, bufs, text, xerr, nil)
+			}
+		})
+	}
+}
+
+// ---------------------------------------------------------------- history depth 3 (thorough)
+
+// c15RunReuseTriples: Compile(A); Compile(B); Compile(C) on one Backend over a sub-cover; C is judged.
+func c15RunReuseTriples(r *explore.Run, cover []c15rEnt) {
+	var sub []c15rEnt
+	const max = 28
+	for i := 0; i < max && i < len(cover); i++ {
+		sub = append(sub, cover[i*len(cover)/max])
+	}
+	n := len(sub)
+	o := c15ReuseOpts()[0]
+	r.Extra("reuse_triples", n*n*n)
+	r.ParallelFor(n*n*n, func(k int) {
+		a, b, c := sub[k/(n*n)], sub[k/n%n], sub[k%n]
+		var out []byte
+		var cerr error
+		var pan any
+		func() {
+			defer func() { pan = recover() }()
+			be := spirv.NewBackend(o.o)
+			_, _ = be.Compile(a.mod)
+			_, _ = be.Compile(b.mod)
+			w, err := be.Compile(c.mod)
+			out, cerr = append([]byte(nil), w...), err
+		}()
+		r.Count("evaluations", 1)
+		if pan != nil || cerr != nil {
+			r.Skip("third compile failed or panicked (pairs judge this)")
+			return
+		}
+		cl, detail := c15SpirvRun(c.c, c.ref, out)
+		if cl == "" || cl == "skip" {
+			return
+		}
+		r.Violate(explore.Violation{Key: "C15|spirv|reuse3:" + o.name + "|" + c15Class(c.c.Sig) + "|after " + a.c.Family + "," + b.c.Family + "|" + cl,
+			Detail: fmt.Sprintf("SPIR-V for %s compiled third on a Backend after %s and %s is not safe on hostile data: %s", c.c.Sig, a.c.Sig, b.c.Sig, detail),
+			Replay: map[string]any{"first": a.c.Sig, "second": b.c.Sig, "third": c.c.Sig, "src": wgen.Print(c.c.Mod)}})
+	})
+}
+
+// c15LayoutFamily: the single-entry-point programs of F15xz as an ordinary per-program family
+// (zero initialisation of every workgroup variable, at every position of the global list, used
+// directly or only through a helper function) for all back ends.
+func c15LayoutFamily(thorough bool) *wgen.Family {
+	all := wgen.F15xLayouts(thorough)
+	var idx []int
+	for i := 0; i < all.Count; i++ {
+		if strings.HasSuffix(all.At(i).Sig, "/main-first") {
+			idx = append(idx, i)
+		}
+	}
+	return &wgen.Family{Name: "F15xz", Count: len(idx), At: func(i int) *wgen.Case { return all.At(idx[i]) }}
+}
